@@ -41,7 +41,7 @@ ORCH = 'chainables.orchestrate'
 
 
 def run(ctx: Ctx):
-  for r in (r1, r2, r3, r4, r5, r6, r7, r8, r9, r11, r12):
+  for r in (r1, r2, r3, r4, r5, r6, r7, r8, r9, r11, r12, r13):
     ctx.guard(r)
   from mlmverif.props import c06
   ctx.include('R-C20-10', '"liveness is a function only of the last recorded heartbeat": the'
@@ -1075,6 +1075,50 @@ def r12(ctx: Ctx):
   ctx.floor(rule, 5, n)
 
 
+def r13(ctx: Ctx):
+  rule = 'R-C20-13'
+  ctx.rule(rule, '"when a pool-level operation returns or raises, none of its workers remains acquired" / "at most one pool owns'
+           ' a given worker": ownership lives IN the Worker objects (their lock and owner field), and release_all() walks'
+           ' the pool\'s worker list. That list therefore holds the same objects for the whole life of the pool: it is'
+           ' bound in the constructor only (methods may read it, never rebind or replace its elements). A method that'
+           ' swaps the objects between an acquisition and the release makes release_all walk never-acquired twins while'
+           ' the acquired objects stay locked for ever')
+  ci = ctx.repo.cls(CW, 'WorkerPool')
+  init = ci.methods.get('__init__')
+  if init is None:
+    raise AnalysisError('WorkerPool.__init__ not found')
+  lists = {t.attr for x in walk_no_nested(init.node) if isinstance(x, ast.Assign) for t in x.targets if is_self_attr(t)
+           and 'worker' in t.attr}
+  if not lists:
+    raise AnalysisError('WorkerPool.__init__ binds no worker list')
+  n = 0
+  for name, fi in ci.methods.items():
+    if name == '__init__':
+      continue
+    n += 1
+    bad = None
+    for x in walk_no_nested(fi.node):
+      tgts = x.targets if isinstance(x, ast.Assign) else [x.target] if isinstance(x, (ast.AugAssign, ast.AnnAssign)) else []
+      for t in tgts:
+        base = t.value if isinstance(t, ast.Subscript) else t
+        if is_self_attr(base) and base.attr in lists:
+          bad = x
+      if isinstance(x, ast.Call) and isinstance(x.func, ast.Attribute) and is_self_attr(x.func.value) and x.func.value.attr in lists and (
+          x.func.attr in ('clear', 'pop', 'remove', 'insert', 'extend', 'append', 'sort', 'reverse')):
+        bad = x
+      if isinstance(x, ast.Delete) and any(is_self_attr(t.value if isinstance(t, ast.Subscript) else t) for t in x.targets):
+        bad = x
+    what = f'WorkerPool.{name}: the pool keeps its worker objects'
+    if bad is None:
+      ctx.ok(rule, fi, what, fi.node)
+    else:
+      ctx.fail(rule, fi, what,
+               f'`{unparse(bad)[:80]}` in WorkerPool.{name} replaces the worker objects of a live pool: workers acquired before'
+               ' are no longer in the list release_all() walks (they stay locked and owned by this pool for ever), and the'
+               ' new objects are twins for the same addresses that a second pool can own at the same time', node=bad)
+  ctx.floor(rule, 15, n)
+
+
 def r8(ctx: Ctx):
   rule = 'R-C20-8'
   ctx.rule(rule, '"recorded heartbeats never move backwards": register() stores'
@@ -1230,6 +1274,8 @@ _U = 'utils/courier_utils.py'
 _W = 'chainables/courier_worker.py'
 _O = 'chainables/orchestrate.py'
 VARIANTS = [
+    B('set-timeout-swaps-worker-objects', _W,
+      '    for c in self._workers:\n      c.call_timeout = timeout', '    self._workers = [dc.replace(c.configs, call_timeout=timeout).make() for c in self._workers]', 'R-C20-13'),
     B('release-all-keeps-busy-workers', 'chainables/courier_worker.py',
       '      if worker.is_available(self):\n        worker.release(self)', '      if worker.is_available(self) and not worker.pendings:\n        worker.release(self)', 'R-C20-5'),
     B('answered-ping-registers', 'utils/courier_utils.py',
